@@ -76,6 +76,23 @@ def scenario(relate, query, consume):
     return refs
 
 
+def late_sweep_history(n, relate):
+    """create / relate / drop n times with collections in between but NO sweep until the end (freed addresses and node
+    indices are reused while dead wrappers are still registered)"""
+    refs = []
+    for i in range(n):
+        p = Person(name=f"lp{i}")
+        c = Company(name=f"lc{i}")
+        refs += [weakref.ref(p), weakref.ref(c)]
+        if relate == "works_for":
+            p.works_for = c
+        elif relate == "members":
+            c.members.add(p)
+        del p, c
+        gc.collect()
+    return refs
+
+
 SymbolGraph().clear()
 SymbolGraph()
 # warm-up so that lazily created structures exist before the baseline is taken
@@ -107,5 +124,23 @@ for relate, query, consume in itertools.product(["none", "works_for", "members",
         rep.fail(f"bookkeeping-grows::{qkind}::{'+'.join(sorted(graph_keys))}", f"relate={relate} query={query} consume={consume}: {dict((k, grown[k]) for k in graph_keys)}", inp)
     if expr_keys:
         rep.fail(f"expression-registry-grows::{qkind}", f"relate={relate} query={query} consume={consume}: {dict((k, grown[k]) for k in expr_keys)}", inp)
+for relate in ("none", "works_for", "members"):
+    for n in (5, 40):
+        gc.collect()
+        SymbolGraph().remove_dead_instances()
+        before = root_sizes()
+        refs = late_sweep_history(n, relate)
+        gc.collect()
+        SymbolGraph().remove_dead_instances()
+        gc.collect()
+        after = root_sizes()
+        alive = sum(1 for r in refs if r() is not None)
+        inp = {"history": "late-sweep", "relate": relate, "n": n}
+        rep.case(("late-sweep", relate, n), sample=inp)
+        if alive:
+            rep.fail("kept-alive::no-query::late-sweep", f"late sweep relate={relate} n={n}: {alive} of {len(refs)} instances are still alive", inp)
+        grown = {k: (before[k], after[k]) for k in before if after[k] > before[k] and not k.startswith(("_id_expression", "expression"))}
+        if grown:
+            rep.fail(f"bookkeeping-grows::no-query::late-sweep::{'+'.join(sorted(grown))}", f"late sweep relate={relate} n={n}: {grown}", inp)
 SymbolGraph().clear()
 rep.finish(exhaustive=True)
